@@ -111,6 +111,8 @@ def gen_cfg(rng: random.Random):
         cfg["rc_at_src"] = {"default_transmission_mode": "unack" if mode == "ack" else "ack", "closure_requested": not closure}
     if rng.random() < 0.05:
         cfg["metadata_only"] = True
+    if rng.random() < 0.3:
+        cfg["scribble_pdus"] = True  # the user edits (the header of) every PDU object after it has taken its bytes
     return cfg, eff
 
 
@@ -159,19 +161,22 @@ def check_common(d, raw, want, viol, where):
     return True
 
 
-def run_stream(w: World, case, data_fn, size, eff, cks, want_hdr, md_want, peer_lag, max_calls, head_only=False, eof_resends=0):
-    """Drives the sender call by call; returns (viol, obs)."""
+def run_stream(w: World, case, data_fn, size, eff, cks, want_hdr, md_want, peer_lag, max_calls, head_only=False, eof_resends=0, before_final_drain=None,
+               already_put=False):
+    """Drives the sender call by call; returns (viol, obs).  before_final_drain: called when the handler went idle while PDUs of the
+    finished transaction are still in its queue, *before* they are retrieved (the user may issue its next put request first)."""
     viol, obs = [], {}
     S = w.S
     tc = prep.tx_conf(w, seq=want_hdr["seq"])
     maxpkt = w.cfg["maxpkt"]
     mark_seq = w.log.seq
     try:
-        ok = w.put()
+        ok = True if already_put else w.put()
     except Exception as e:  # noqa: BLE001
         return [{"clause": "put-request-raised", "etype": type(e).__name__, "msg": str(e)[:200]}], obs
     if not ok:
         return [{"clause": "put-request-refused"}], obs
+    next_put_done = False
     phase = "md"
     next_off = 0
     eof_seen_call = None
@@ -222,13 +227,26 @@ def run_stream(w: World, case, data_fn, size, eff, cks, want_hdr, md_want, peer_
                 fin_sent = True
         S.outbox.clear()
         try:
-            if pdu_in is None:
-                S.sm()
-            else:
-                e = prep.feed(S, pdu_in)
-                if e is not None:
-                    viol.append({"clause": "peer-pdu-refused", "etype": type(e).__name__, "pdu": wire.kind_of(pdu_in), "step": S.h.step.name})
-                    break
+            S.autodrain = before_final_drain is None
+            try:
+                if pdu_in is None:
+                    S.sm()
+                else:
+                    e = prep.feed(S, pdu_in)
+                    if e is not None:
+                        viol.append({"clause": "peer-pdu-refused", "etype": type(e).__name__, "pdu": wire.kind_of(pdu_in), "step": S.h.step.name})
+                        break
+            finally:
+                S.autodrain = True
+            if before_final_drain is not None:
+                if S.h.state.name == "IDLE" and len(S.h._pdus_to_be_sent) > 0 and not next_put_done:
+                    err = before_final_drain()
+                    next_put_done = True
+                    obs["next_put_request_before_last_pdus_were_retrieved"] = 1
+                    if err:
+                        viol.append(err)
+                        break
+                S.drain()
         except PROTO_EXC as e:
             viol.append({"clause": "state-machine-raised", "etype": type(e).__name__, "msg": str(e)[:150]})
             break
@@ -324,12 +342,15 @@ def run_stream(w: World, case, data_fn, size, eff, cks, want_hdr, md_want, peer_
             return viol, obs
         if viol and len(viol) > 6:
             break
-        if S.h.state.name == "IDLE":
+        if S.h.state.name == "IDLE" or next_put_done:
             break
     obs["calls"] = ncalls
     obs["file_data_pdus"] = fd_count
     if not viol:
-        if S.h.state.name != "IDLE":
+        if next_put_done:
+            if not w.cfg["metadata_only"] and phase != "eof":
+                viol.append({"clause": "stream-incomplete-no-eof", "phase": phase, "next_put_request_issued_before_retrieval": True})
+        elif S.h.state.name != "IDLE":
             viol.append({"clause": "sender-not-idle-after-complete-stream", "step": S.h.step.name, "calls": ncalls})
         elif not w.cfg["metadata_only"] and phase != "eof":
             viol.append({"clause": "stream-incomplete-no-eof", "phase": phase})
@@ -365,23 +386,16 @@ def run_case(case):
                 size, data = len(w.data), w.data
                 cks = models.checksum(c["cks"], data).hex()
             nseg = -(-size // max(1, case["eff"]))
-            viol, obs = run_stream(w, case, lambda o, n: data[o : o + n], size, case["eff"], cks, want_hdr, md_want, case["peer_lag"], nseg + 14 + case["peer_lag"] * 2,
-                                   eof_resends=case.get("eof_resends", 0))
-            if case.get("second") and not viol and c["metadata_only"]:
-                # a metadata-only request is followed by an ordinary file transfer on the same sender object
-                if S_idle(w):
-                    w.cfg["metadata_only"] = False
-                    md_want = {"size": len(w.data), "src_name": w.src_path.as_posix(), "dst_name": w.dst_req_path.as_posix(), "closure": closure,
-                               "cktype": {"null": "NULL_CHECKSUM", "modular": "MODULAR", "crc32": "CRC_32", "crc32c": "CRC_32C"}[c["cks"]]}
-                    data = bytes((i * 13 + 5) & 0xFF for i in range(c["size"]))
-                    obs["file_stream_after_metadata_only_request"] = 1
-            if case.get("second") and not viol and not w.cfg["metadata_only"]:
-                # the same sender object handles a second put request for a file with other content (same configuration, next sequence number)
-                data2 = bytes((b * 7 + 3) & 0xFF for b in data) + b"tail"[: size % 3]
+            second_box = {}
+            obs2 = {}
+
+            def prepare_second():
+                base = second_box.get("base_data", data)
+                data2 = bytes((b * 7 + 3) & 0xFF for b in base) + b"tail"[: size % 3]
                 w.data = data2
                 w.write_raw("src", w.src_path, data2)
                 want2 = dict(want_hdr, seq=(want_hdr["seq"] + 1) % (1 << c["seqw"]))
-                md2 = dict(md_want, size=len(data2))
+                md2 = dict(second_box.get("md_want", md_want), size=len(data2))
                 eff2, cks_kind = case["eff"], c["cks"]
                 if case["cfg"]["size"] % 2:
                     # the user re-tunes the remote entity configuration between the two transfers: CRC flag, checksum type, packet length
@@ -397,14 +411,48 @@ def run_case(case):
                     eff2 = derived2 if c["seg"] is None else min(c["seg"], derived2)
                     want2["crc"] = crc2
                     md2["cktype"] = {"null": "NULL_CHECKSUM", "modular": "MODULAR", "crc32": "CRC_32", "crc32c": "CRC_32C"}[cks_kind]
-                    obs["second_stream_after_mib_change"] = 1
-                cks2 = models.checksum(cks_kind, data2).hex()
+                    obs2["second_stream_after_mib_change"] = 1
+                second_box["params"] = (data2, want2, md2, eff2, models.checksum(cks_kind, data2).hex())
+
+            def put_second_early():
+                # the user issues its next put request while the last PDU(s) of the finished transaction still wait in the handler's queue
+                prepare_second()
+                try:
+                    ok2 = w.put()
+                except Exception as e:  # noqa: BLE001
+                    return {"clause": "put-request-raised", "etype": type(e).__name__, "msg": str(e)[:200], "before_last_pdus_were_retrieved": True}
+                if not ok2:
+                    return {"clause": "put-request-refused", "before_last_pdus_were_retrieved": True}
+                second_box["put_done"] = True
+                return None
+
+            early = bool(case.get("second")) and not c["metadata_only"] and case["cfg"]["size"] % 3 == 0 and not case.get("eof_resends")
+            maxpkt_first = c["maxpkt"]
+            viol, obs = run_stream(w, case, lambda o, n: data[o : o + n], size, case["eff"], cks, want_hdr, md_want, case["peer_lag"], nseg + 14 + case["peer_lag"] * 2,
+                                   eof_resends=case.get("eof_resends", 0), before_final_drain=put_second_early if early else None)
+            obs.update(obs2)
+            if case.get("second") and not viol and c["metadata_only"]:
+                # a metadata-only request is followed by an ordinary file transfer on the same sender object
+                if S_idle(w):
+                    w.cfg["metadata_only"] = False
+                    md_want = {"size": len(w.data), "src_name": w.src_path.as_posix(), "dst_name": w.dst_req_path.as_posix(), "closure": closure,
+                               "cktype": {"null": "NULL_CHECKSUM", "modular": "MODULAR", "crc32": "CRC_32", "crc32c": "CRC_32C"}[c["cks"]]}
+                    data = bytes((i * 13 + 5) & 0xFF for i in range(c["size"]))
+                    second_box["base_data"], second_box["md_want"] = data, md_want
+                    obs["file_stream_after_metadata_only_request"] = 1
+            if case.get("second") and not viol and not w.cfg["metadata_only"]:
+                # the same sender object handles a second put request for a file with other content (same configuration, next sequence number)
+                if second_box.get("params") is None:
+                    prepare_second()
+                data2, want2, md2, eff2, cks2 = second_box["params"]
                 nseg2 = -(-len(data2) // max(1, eff2))
                 v2, o2 = run_stream(w, case, lambda o, n: data2[o : o + n], len(data2), eff2, cks2, want2, md2, case["peer_lag"], nseg2 + 14 + case["peer_lag"] * 2,
-                                    eof_resends=case.get("eof_resends", 0))
+                                    eof_resends=case.get("eof_resends", 0), already_put=bool(second_box.get("put_done")))
                 for x in v2:
                     x["second_put_on_same_sender"] = True
+                    x["second_put_before_last_pdus_of_first_were_retrieved"] = bool(second_box.get("put_done"))
                 viol += v2
+                obs.update(obs2)
                 obs["second_streams_on_same_sender"] = 1
                 obs["eof_resends_checked"] = obs.get("eof_resends_checked", 0) + o2.get("eof_resends_checked", 0)
             obs["mode_" + mode] = 1
@@ -449,4 +497,4 @@ def run_case(case):
 
 
 REQUIRED = {"metadata_checked": 100, "eof_checked": 100, "empty_file_eof_checked": 5, "ack_finished_checked": 20, "full_segments": 200,
-            "fd_pdu_exactly_max_packet_len": 20, "large_file_cases": 4, "large_flag_boundary_cases": 8, "mixed_id_width": 20, "request_contradicts_mib": 20, "eof_resends_checked": 100, "second_streams_on_same_sender": 100, "second_stream_after_mib_change": 30, "refused_put_requests_during_stream": 100, "file_stream_after_metadata_only_request": 10}
+            "fd_pdu_exactly_max_packet_len": 20, "large_file_cases": 4, "large_flag_boundary_cases": 8, "mixed_id_width": 20, "request_contradicts_mib": 20, "eof_resends_checked": 100, "second_streams_on_same_sender": 100, "second_stream_after_mib_change": 30, "refused_put_requests_during_stream": 100, "next_put_request_before_last_pdus_were_retrieved": 50, "file_stream_after_metadata_only_request": 10}
